@@ -6,7 +6,7 @@ FITS = ['best_fit', 'point_fit']
 COSTS = ['rss', 'rmse']
 REFS = ['none', 'original', 'adjusted']
 # sign classes of (slope1, slope2): rising / falling (monotone), V-shaped, one flat arm
-SIGNS = [(1, 1), (-1, -1), (1, -1), (-1, 1), (0, 1), (0, -1), (1, 0), (-1, 0)]
+SIGNS = [(1, 1), (-1, -1), (1, -1), (-1, 1), (0, 1), (1, 1), (-1, -1), (0, -1), (1, -1), (-1, 1), (1, 0), (-1, 0)]
 LIMITS = [10, 10, 3, 0, 25, 7, 1000]
 DETECTORS = (['curvature.knee', 'menger.knee', 'dfdt.knee']
              + ['lmethod.get_knee(%s,%s)' % (f, c) for f in FITS for c in COSTS]
@@ -47,7 +47,7 @@ class C03:
     id = 'C03'
     judge_module = 'Run.JudgeC03'
     rule = ('exact two-slope elbows from the property\'s parameter space: arm lengths 3..400 (quick <= 40), gap patterns over {1,2,3,4} '
-            '(constant, periodic, alternating extremes, random), ordered pairs of distinct slopes j/8 with |j| <= 64 enumerated round-robin over the 8 sign '
+            '(constant, periodic, alternating extremes, random), ordered pairs of distinct slopes j/8 with |j| <= 64 enumerated round-robin over the sign '
             'classes (rising, falling, both V orientations, one flat arm) x convex/concave, dyadic offsets <= 2^12; each elbow is run through '
             'curvature.knee, menger.knee, dfdt.knee, lmethod.get_knee (2 fits x 2 costs), lmethod.knee (2 fits x 3 refinements, limit round-robin) and, '
             'when monotone, kneedle.knee(t=0); every elbow is non-trivial; distinct by (arm lengths, slopes, gaps, offsets, limit); '
@@ -56,14 +56,17 @@ class C03:
     trusted = ['modelled: uts.gradient.cfd/csd, uts.thresholding.isodata (bit-for-bit on binary64, compared under rtol 1e-9 to the installed uts), '
                'curvature (u**1.5 := sqrt(u*u*u)), Menger (v**2.0 := v*v), L-method (np.polyfit residual := residual of the least-squares line by centred normal equations), '
                'DFDT, Kneedle at t = 0 (ema_linear(.,0) = copy)',
-               'the theorems are about the formulas over exact reals (RNum); that the binary64 evaluation also returns the corner is measured by this run, not proved']
+               'the theorems are about the formulas over exact reals (RNum); that the binary64 evaluation also returns the corner is measured by this run, not proved',
+               'detectors proved in Coq for all elbows (unbounded arms, arbitrary positive spacings): curvature, Menger, L-method get_knee (2 fits x 2 costs) and knee '
+               '(2 fits x 3 refinements, every limit), DFDT (with isodata_two_level for every eps / iteration budget), Kneedle t=0 on monotone elbows; '
+               'detectors covered by correspondence only: none']
     timeout = 300.0
     shard = 60
 
     def generate(self, rng, tier):
         plan = {'quick': [(160, 3, 8), (70, 3, 40)],
                 'search': [(100, 3, 8), (40, 3, 40)],
-                'thorough': [(5000, 3, 10), (1500, 3, 40), (160, 20, 150), (40, 100, 400)]}.get(tier, [(160, 3, 8), (70, 3, 40)])
+                'thorough': [(12000, 3, 10), (3500, 3, 40), (400, 20, 150), (100, 100, 400)]}.get(tier, [(160, 3, 8), (70, 3, 40)])
         cases = []
         k = 0
         for count, lo, hi in plan:
